@@ -1179,15 +1179,18 @@ pub fn gen_ear_case(rng: &mut Rng, idx: u64) -> EarCase {
 
 pub fn run(o: &Opts) -> Report {
     let mut rep = Report::new("C11");
-    rep.rule = "component level: TAP images of 1-2 non-empty blocks (rotating through: all 256 byte values, lengths \
-127..130/255..257 around the 128-byte buffer, header blocks with flag 0x00 and the long pilot, short random blocks) played on the real \
-Tap<VAsset> (short reads varied) under 1-3 consecutive step schedules (uniform 1..16, constant, mostly 1..4, alternating 16/1, \
-instruction-like) until past the end of the tape; every EAR edge time and the stop time compared exactly with the Lean model and the \
-pulse list adjudicated by the waveform spec (pilot count, 2168/667/735/855/1710 within +0..32 T, pause 3.0-4.5 MT); malformed images \
-(empty block, truncated block) compared with the model only. System level: the real 48K ROM LD-BYTES loading the playing tape in real \
-time (1-2 small blocks, LOAD/VERIFY, matching/short/zero/long DE, wrong flag, bad checksum) compared with Spec.ldBytes and with fast \
-loading. distinct/non-trivial = distinct (schedule kind, block class) of component runs that reached the end of the tape plus distinct \
-ROM load classes"
+    rep.rule = "component level: TAP images of 1-2 non-empty blocks whose flag byte (00, ff, 01, 80, 7f, random) and total length (1, 2, 3, \
+17-21, 127-130, 256-258 incl. all 256 byte values, 300, random) are chosen independently, played on the real Tap<VAsset> (short reads varied) \
+under 1-3 consecutive step schedules (uniform 1..16, constant, mostly 1..4, alternating 16/1, instruction-like) until past the end of the \
+tape; every EAR edge time and the stop time compared exactly with the Lean model and the pulse list adjudicated by the waveform spec (pilot \
+count by flag byte, 2168/667/735/855/1710 within +0..32 T, pause 3.0-4.5 MT); malformed images (empty block, truncated block) compared with \
+the model only. System level 1: the real 48K ROM LD-BYTES loading the playing tape in real time (1-2 small blocks, flags and lengths \
+independent, LOAD/VERIFY, matching/short/zero/long DE, wrong flag, bad checksum) compared with Spec.ldBytes and with fast loading. System \
+level 2: the tape played on a real Emulator (48K/128K) while the CPU executes DI:HALT, EI:HALT with IM1 and IM2, LDIR, OTIR, tight loops and \
+random instruction streams from uncontended or contended memory; EAR sampled after every emulated instruction, every pulse and every running \
+total checked against nominal with the tolerance widened by exactly the sampling interval, pilot count by flag byte, no emulation step \
+longer than 512 T. distinct/non-trivial = distinct (schedule kind, flag class, length class) of component runs plus distinct ROM load \
+classes plus distinct (program, machine, code address, block class) of EAR runs"
         .into();
     let mut model = Model::spawn(&o.model, "C11");
     let mut m10 = Model::spawn(&o.model, "C10");
